@@ -47,6 +47,13 @@ def gen_cases(tier: str, seed: int):
         if tier == "quick" and second not in ("none", "other_schema", "other_db", "same_after_drop_schema"):
             continue
         yield {"storage": st, "prior": prior, "db": db, "sc": sc, "cd": cd, "cs": cs, "second": second}
+    # instances that also carry nop_regexes (connect's own set-up is not a user statement), names with _ and $ next to
+    # look-alike objects (DBX1 / SX1 exist, DB_1 / S_1 are asked for)
+    for prior in [p for p in PRIOR if p != "other_live"] + ["lookalike"]:  # (the other_live preparation itself uses USE)
+        for db in ("db1", "data_warehouse", "db_1"):
+            for sc in (None, "s1", "s_1", "sales$eu"):
+                for cd, cs in ((True, True), (True, False), (False, False)):
+                    yield {"storage": "memory", "prior": prior, "db": db, "sc": sc, "cd": cd, "cs": cs, "second": "none", "nop": prior != "lookalike"}
     if tier == "quick":  # a slice of the file modes on every change
         for st, prior, db, sc, cd, cs in itertools.product(
             ["path_fresh", "path_reopen"], PRIOR, [None, "db1"], [None, "s1", "information_schema"], (True, False), (True, False)
@@ -95,6 +102,16 @@ def _prep(fs: Any, world: World, prior: str, path_mode: bool) -> Any:
             cur.execute("CREATE TABLE DB1.S1.PROBE_T (ID INT, NAME VARCHAR(20)) COMMENT = 'probe table'")
             cur.execute("INSERT INTO DB1.S1.PROBE_T (ID) VALUES (1), (2)")
             world.attached["DB1"]["S1"] = {"PROBE_T"}
+    elif prior == "lookalike":
+        c = fs.connect()
+        cur = c.cursor()
+        for s_ in ("CREATE DATABASE DBX1", "CREATE SCHEMA DBX1.SX1", "CREATE SCHEMA DBX1.S_1", "CREATE DATABASE DB11", "CREATE SCHEMA DB11.S11"):
+            cur.execute(s_)
+        world.new_db("DBX1", False)
+        world.attached["DBX1"]["SX1"] = set()
+        world.attached["DBX1"]["S_1"] = set()
+        world.new_db("DB11", False)
+        world.attached["DB11"]["S11"] = set()
     elif prior == "other_live":
         c = fs.connect()
         cur = c.cursor()
@@ -117,7 +134,8 @@ def run_case(case: dict, env: core.Env) -> None:
     fs = None
     try:
         if st == "memory":
-            fs = core.new_fs(create_database_on_connect=case["cd"], create_schema_on_connect=case["cs"])
+            extra = {"nop_regexes": [r"^USE\b", r".*WAREHOUSE.*", r"^ALTER SESSION"]} if case.get("nop") else {}
+            fs = core.new_fs(create_database_on_connect=case["cd"], create_schema_on_connect=case["cs"], **extra)
             other = _prep(fs, world, case["prior"], False)
         else:
             tmp = tempfile.mkdtemp(prefix="fsverif-c14-")
